@@ -3,6 +3,7 @@
 package main
 
 import (
+	"bytes"
 	"encoding/json"
 	"fmt"
 	"strings"
@@ -20,7 +21,9 @@ func c03Cfg(s *EnumSpec, v []int) RCfg {
 		Routes: []RRoute{{Dests: []string{"static.example.org"}, Protocol: "udp", NextHop: "st.example.net:5080"},
 			{Dests: []string{"*.wild.example.org"}, Protocol: "tcp", NextHop: "127.0.3.2:5090"},
 			// an exact entry for a host the wildcard entry also matches (and whose text is no longer than the pattern)
-			{Dests: []string{"a.wild.example.org"}, Protocol: "udp", NextHop: "127.0.3.4:5085"}},
+			{Dests: []string{"a.wild.example.org"}, Protocol: "udp", NextHop: "127.0.3.4:5085"},
+			// one entry with several destinations, the wildcard not first
+			{Dests: []string{"multi.example.org", "*.multi.example.org", "other-multi.example.org"}, Protocol: "udp", NextHop: "127.0.2.2:5070"}},
 		Hosts: [][2]string{{"proxy.example.com", "127.0.0.1"}, {"nh.example.net", "127.0.2.1"}, {"st.example.net", "127.0.3.1"}},
 	}
 	switch s.Val(v, "names") {
@@ -81,7 +84,8 @@ func c03Msg(s *EnumSpec, v []int) *WMsg {
 	case "next+further":
 		routes = []string{"<" + hop + ">", "<sip:127.0.2.2:5070;lr>"}
 	}
-	to := map[string]string{"nomatch": "nomatch.example.org", "exact": "static.example.org", "wildcard": "x.wild.example.org", "exact-under-wildcard": "a.wild.example.org"}[s.Val(v, "tohost")]
+	to := map[string]string{"nomatch": "nomatch.example.org", "exact": "static.example.org", "wildcard": "x.wild.example.org", "exact-under-wildcard": "a.wild.example.org",
+		"wildcard-second-dest": "x.multi.example.org", "exact-third-dest": "other-multi.example.org"}[s.Val(v, "tohost")]
 	ruri := map[string]string{
 		"foreign": "sip:bob@foreign.example.net", "service-host": "sip:bob@svc.example.com", "regex-only": "sip:12345@num.example.com",
 		"user-at-host": "sip:carol@pbx.example.com", "wrong-user": "sip:dave@pbx.example.com", "urn": "urn:service:sos", "tel": "tel:+15551234",
@@ -89,8 +93,12 @@ func c03Msg(s *EnumSpec, v []int) *WMsg {
 		"service-host-nouser": "sip:svc.example.com;transport=udp",
 	}[s.Val(v, "ruri")]
 	tr := strings.ToUpper(s.Val(v, "arrival"))
+	var body []byte
+	if s.Val(v, "body") == "2000" {
+		body = bytes.Repeat([]byte("0123456789abcdef"), 125)
+	}
 	return MsgSpec{Method: "OPTIONS", RURI: ruri, Vias: []string{"SIP/2.0/" + tr + " 127.0.0.9:5060;branch=z9hG4bKc03"}, Routes: routes,
-		From: "<sip:alice@ua.example.net>;tag=f1", To: "<sip:bob@" + to + ">", CallID: "c03", CSeq: "1 OPTIONS"}.Build()
+		From: "<sip:alice@ua.example.net>;tag=f1", To: "<sip:bob@" + to + ">", CallID: "c03", CSeq: "1 OPTIONS", Body: body}.Build()
 }
 
 func c03Eval(v []int) (string, string, bool) {
@@ -244,7 +252,7 @@ func init() {
 			{Name: "hopport", Vals: []string{"absent", "5060", "5070"}},
 			{Name: "hoptransport", Vals: []string{"absent", "udp", "tcp", "TCP", "tls", "sctp", "UDP"}, Quick: 5},
 			{Name: "hoplr", Vals: []string{"lr", "none"}},
-			{Name: "tohost", Vals: []string{"nomatch", "exact", "wildcard", "exact-under-wildcard"}},
+			{Name: "tohost", Vals: []string{"nomatch", "exact", "wildcard", "exact-under-wildcard", "wildcard-second-dest", "exact-third-dest"}},
 			{Name: "table", Vals: []string{"no-default", "default-udp", "default-tls", "empty"}, Quick: 2},
 			{Name: "ruri", Vals: []string{"foreign", "service-host", "regex-only", "user-at-host", "wrong-user", "urn", "tel", "listener", "listener-noport", "listener-wrong-port", "substring-user", "service-host-nouser"}, Quick: 9},
 			{Name: "keep", Vals: []string{"off", "true", "Yes", "0"}, Quick: 2},
@@ -252,6 +260,7 @@ func init() {
 			{Name: "names", Vals: []string{"list", "single", "anything"}, Quick: 2},
 			{Name: "backends", Vals: []string{"udp+tcp", "none", "one-tcp"}, Quick: 2},
 			{Name: "prelude", Vals: []string{"none", "hop-learned", "same-request-other-listener"}},
+			{Name: "body", Vals: []string{"none", "2000"}},
 		},
 		Eval: c03Eval,
 	}
@@ -260,6 +269,10 @@ func init() {
 		r := s.Val(v, "route")
 		hasNext := r == "own+next" || r == "next" || r == "next+further" || r == "own-alias+next"
 		if s.Val(v, "prelude") == "hop-learned" && !hasNext {
+			return false
+		}
+		// the large body is crossed with the deciding features, not with spellings and preludes
+		if v[s.idx("body")] != 0 && (v[s.idx("prelude")] != 0 || v[s.idx("names")] != 0 || v[s.idx("hoplr")] != 0 || v[s.idx("hopport")] > 1 || s.Val(v, "keep") != "off") {
 			return false
 		}
 		if !hasNext {
@@ -287,7 +300,7 @@ func init() {
 		return true
 	}
 	addCheck(&Check{ID: "C03", Level: "exploration",
-		Rule:   "complete product of the decision-table features (Route shape x next-hop URI host/port/transport/lr x To host x static table x Request-URI class x keep-next-hop x arrival transport x service-name list x backends x history prelude {none, next hop learned, the same request received earlier through the other listener}), each case on a fresh world started through the real startProxy, and a second pass in which all cases of one configuration are fed one after the other into ONE long-lived world (history independence of the decision); the oracle inspects the set of ALL packets and connection attempts the simulated network saw until quiescence; non-trivial = the request is not simply dropped",
+		Rule:   "complete product of the decision-table features (Route shape x next-hop URI host/port/transport/lr x To host (no match, exact, wildcard, exact under a wildcard, second / third destination of a multi-destination entry) x static table x Request-URI class x keep-next-hop x arrival transport x service-name list x backends x history prelude {none, next hop learned, the same request received earlier through the other listener} x body {none, 2000 bytes}), each case on a fresh world started through the real startProxy, and a second pass in which all cases of one configuration are fed one after the other into ONE long-lived world (history independence of the decision); the oracle inspects the set of ALL packets and connection attempts the simulated network saw until quiescence; non-trivial = the request is not simply dropped",
 		Assume: []string{"service-name patterns are matched with Go's regexp in both the code and the reference (trusted)", "hosts are IPv4 literals or host-table names (stated domain)"},
 		Run: func(c *Ctx) {
 			c03Spec.Run(c)
